@@ -63,7 +63,7 @@ fn t(name: &str, code: String, budgets: &[(&str, u32)]) -> Template {
 	}
 }
 
-pub const N_TEMPLATES: usize = 46;
+pub const N_TEMPLATES: usize = 48;
 
 pub fn template(idx: usize, c: i64) -> Template {
 	match idx % N_TEMPLATES {
@@ -283,6 +283,16 @@ pub fn template(idx: usize, c: i64) -> Template {
 			"mergepatch-and-mapwithkey-laziness",
 			format!("local t = {{ keep: std.trace('L1', {c}), unused: error 'bomb1', gone: error 'bomb2' }}; local m = std.mergePatch(t, {{ gone: null, extra: std.trace('L2', 2) }}); local k = std.mapWithKey(function(k, v) v, {{ a: std.trace('L3', 3) }}); {{ r1: m.keep, r2: m.keep + m.extra, r3: std.objectFields(m), r4: k.a, r5: std.length(k) }}"),
 			&[("L1", 1), ("L2", 1), ("L3", 1)],
+		),
+		45 => t(
+			"comprehension-filters-short-circuit",
+			format!("local one = std.trace('L1', {c}); {{ r1: [x for x in [1, 2, 3] if x > 2 if std.trace('L2', x > 0)], r2: [x.v for x in [null, {{ v: one }}] if x != null if x.v == x.v], r3: {{ [k]: 1 for k in ['a', 'b'] if k == 'a' if (if k == 'b' then error 'bomb1' else true) }}, r4: [x + y for x in [1, 2] if x > 1 for y in [10, 20] if y > 10 if std.trace('L3', true)], r5: std.length([x for x in [error 'bomb2', error 'bomb3'] if true]), r6: [x for x in [1, 2] if false if error 'bomb4' if error 'bomb5'], r7: std.length([[x, y] for x in [1, error 'bomb6'] for y in [error 'bomb7', 2]]) }}"),
+			&[("L1", 1), ("L2", 1), ("L3", 1)],
+		),
+		46 => t(
+			"standalone-super-views-share-the-layer-memo",
+			format!("local base = {{ f: std.trace('L1', {c}), g: std.trace('L2', 2), h:: error 'bomb1' }}; local d = base + {{ a: (local s = super; s.f), b: (local s = super; s.f), via: std.get(super, 'g'), direct: super.g, again: std.get(super, 'g'), has: std.objectHas(super, 'h') }}; {{ r1: d.a + d.b, r2: [d.via, d.direct, d.again], r3: d.has, r4: d.a }}"),
+			&[("L1", 1), ("L2", 1)],
 		),
 		_ => t(
 			"import-evaluated-once",
